@@ -188,43 +188,44 @@ def run(ctx):
                 cfg["auto_vacuum"] = [1, 2, 0][(i // 4) % 3]     # FULL <-> INCREMENTAL switches inside the log
             h = H.make_history(sc.path(f"h{i}"), cfg, r, kind=kind)
             n0 = len(ctx.oracle_failures)
-            # (every second history with the versions kept in memory: the reported header must not depend on it)
-            impl, vh, exc = C.compare_history_dump(ctx, h.db, h.wal, "vh.dump", mem=(i % 2 == 1), with_trees=False)
-            ctx.branch(f"history:{h.kind}:mem{i % 2}")
-            if vh is None:
-                ctx.oracle_fail("history-rejected", f"a WAL history written by SQLite is rejected: {impl}",
-                                {"kind": h.kind, "cfg": cfg, "events": h.events, "store_in_memory": i % 2 == 1}, impl, "accepted")
-                C.keep_failing_files(ctx, n0, h.db, h.wal)
-                continue
-            if len(vh.versions) != len(h.snapshots):
-                continue   # version count is C02's business
-            # (V) the legal-transition specification of C17Step holds between the headers of consecutive versions
-            lines = []
-            for k in range(1, len(vh.versions)):
-                try:
-                    a = bytes(vh.versions[k - 1].get_page_data(1, 0, 100))
-                    b = bytes(vh.versions[k].get_page_data(1, 0, 100))
-                    lines.append(f"spec.hdrstep {hx(a)} {hx(b)} {int(vh.versions[k].database_size_in_pages)} "
-                                 f"{int(bool(vh.versions[k].master_schema_modified))}")
-                except Exception:  # noqa
-                    pass
-            for line, ans in zip(lines, driver.ask(lines) if lines else []):
-                ctx.branch("spec-hdrstep:" + ans.strip())
-                if ans.strip() not in ("ok same", "ok true"):
-                    ctx.spec_fail("Spec.HeaderStep does not hold between two consecutive headers SQLite wrote",
-                                  {"kind": h.kind, "cfg": cfg, "events": h.events}, ans, line[:260])
-            for k, snap in enumerate(h.snapshots):
-                hd = vh.versions[k].database_header
-                pr = snap["pragmas"]
-                got = {"page_count": vh.versions[k].database_size_in_pages, "freelist_count": hd.number_of_freelist_pages,
-                       "schema_version": hd.schema_cookie, "user_version": hd.user_version,
-                       "application_id": hd.application_id, "page_size": hd.page_size,
-                       "auto_vacuum": 0 if not hd.largest_root_b_tree_page_number else (2 if hd.incremental_vacuum_mode else 1)}
-                ctx.mark(("hist-hdr", i, k))
-                for key, v in got.items():
-                    if int(v) != int(pr[key]):
-                        ctx.oracle_fail("pragma", f"header field {key} of version {k} differs from SQLite's value after that commit",
-                                        {"kind": h.kind, "cfg": cfg, "events": h.events, "version": k}, v, pr[key])
+            for mem in (False, True):
+                # (with and without the versions kept in memory: the reported header must not depend on it)
+                impl, vh, exc = C.compare_history_dump(ctx, h.db, h.wal, "vh.dump", mem=mem, with_trees=False)
+                ctx.branch(f"history:{h.kind}:mem{int(mem)}")
+                if vh is None:
+                    ctx.oracle_fail("history-rejected", f"a WAL history written by SQLite is rejected: {impl}",
+                                    {"kind": h.kind, "cfg": cfg, "events": h.events, "store_in_memory": mem}, impl, "accepted")
+                    C.keep_failing_files(ctx, n0, h.db, h.wal)
+                    continue
+                if len(vh.versions) != len(h.snapshots):
+                    continue   # version count is C02's business
+                # (V) the legal-transition specification of C17Step holds between the headers of consecutive versions
+                lines = []
+                for k in range(1, len(vh.versions)):
+                    try:
+                        a = bytes(vh.versions[k - 1].get_page_data(1, 0, 100))
+                        b = bytes(vh.versions[k].get_page_data(1, 0, 100))
+                        lines.append(f"spec.hdrstep {hx(a)} {hx(b)} {int(vh.versions[k].database_size_in_pages)} "
+                                     f"{int(bool(vh.versions[k].master_schema_modified))}")
+                    except Exception:  # noqa
+                        pass
+                for line, ans in zip(lines, driver.ask(lines) if lines else []):
+                    ctx.branch("spec-hdrstep:" + ans.strip())
+                    if ans.strip() not in ("ok same", "ok true"):
+                        ctx.spec_fail("Spec.HeaderStep does not hold between two consecutive headers SQLite wrote",
+                                      {"kind": h.kind, "cfg": cfg, "events": h.events}, ans, line[:260])
+                for k, snap in enumerate(h.snapshots):
+                    hd = vh.versions[k].database_header
+                    pr = snap["pragmas"]
+                    got = {"page_count": vh.versions[k].database_size_in_pages, "freelist_count": hd.number_of_freelist_pages,
+                           "schema_version": hd.schema_cookie, "user_version": hd.user_version,
+                           "application_id": hd.application_id, "page_size": hd.page_size,
+                           "auto_vacuum": 0 if not hd.largest_root_b_tree_page_number else (2 if hd.incremental_vacuum_mode else 1)}
+                    ctx.mark(("hist-hdr", i, k))
+                    for key, v in got.items():
+                        if int(v) != int(pr[key]):
+                            ctx.oracle_fail("pragma", f"header field {key} of version {k} differs from SQLite's value after that commit",
+                                            {"kind": h.kind, "cfg": cfg, "events": h.events, "version": k}, v, pr[key])
             C.keep_failing_files(ctx, n0, h.db, h.wal)
     finally:
         sc.close()
